@@ -36,7 +36,7 @@ int main(int argc, char** argv) {
             // rows of this constraint inside the system-wide vectors/matrices, and the multipliers padded with zeros for the other constraint
             MultiplierIndex px0, vx0, ax0; c.getIndexOfMultipliersInUse(s, px0, vx0, ax0);
             std::vector<int> rowsOfMain; for (int i = 0; i < mp; ++i) rowsOfMain.push_back(px0 + i); for (int i = 0; i < mv; ++i) rowsOfMain.push_back(vx0 + i); for (int i = 0; i < ma; ++i) rowsOfMain.push_back(ax0 + i);
-            const int mSys = s.getNMultipliers(), mpSys = s.getNQErr();
+            const int mSys = s.getNMultipliers();
             Vector lamSys(mSys, Real(0)); for (int i = 0; i < mm; ++i) lamSys[rowsOfMain[i]] = lam[i];
             auto slice = [&](const Vector& v) { Vector o(mm); for (int i = 0; i < mm; ++i) o[i] = v[rowsOfMain[i]]; return o; };
             Vector_<SpatialVec> AG; m.calcBodyAccelerationFromUDot(s, udot, AG);
@@ -95,7 +95,7 @@ int main(int argc, char** argv) {
                 for (int j = 0; j < nq; ++j) { std::printf("OUT PQCOL %d", j); for (int i = 0; i < mp; ++i) std::printf(" %a", Pq(px0 + i, j)); std::printf("\n"); }
                 Vector qlike(nq); for (int i = 0; i < nq; ++i) qlike[i] = s.getQDot()[i];
                 Vector PqQ; m.multiplyByPq(s, qlike, PqQ); Vector PqQm(mp); for (int i = 0; i < mp; ++i) PqQm[i] = PqQ[px0 + i]; pvec("OUT PQQDOT", PqQm); pvec("OUT QDOT", qlike);
-                Vector lamp(mpSys, Real(0)); for (int i = 0; i < mp; ++i) lamp[px0 + i] = lam[i];
+                Vector lamp(Pq.nrow(), Real(0)); for (int i = 0; i < mp; ++i) lamp[px0 + i] = lam[i];   // all holonomic rows of the system (NQErr would also count quaternion norms)
                 Vector Pqtl; m.multiplyByPqTranspose(s, lamp, Pqtl); pvec("OUT PQTL", Pqtl);
             }
             std::printf("END\n");
